@@ -190,7 +190,7 @@ PROPERTIES = {
              'rewrite itself) and the runtime library are not covered',
   },
   'C04': {
-    'verus': ['opsem', 'oparms', 'wasmlower', 'strconst'],
+    'verus': ['opsem', 'oparms', 'wasmlower', 'strconst', 'tsstmt'],
     'quick_witness': ['exec_backends'],
     'kani': ['wasmops'],
     'level': 'proof',
@@ -307,6 +307,8 @@ STANDING_ASSUMPTIONS = {
                '(optimize_expr and the for_each closures, R3) only reads the table'],
   'escape': ['Verus/Z3; vstd HashSet specification with obeys_key_model::<PStr>(); EscapeAnalysis reduced to its escape set (R6); visit_statements (nested '
              'statements) only adds to the set; the other arms of visit_statement and the rewriting that uses the set are not under contract'],
+  'tsstmt': ['Verus/Z3; vstd String::push_str; operands, types, names and nested statements are abstracted to the text they print (uninterpreted); '
+             'append_spaces prints an uninterpreted indentation; destructuring loop patterns written as a let (R11); what the text MEANS in JavaScript is not modelled here'],
   'usegates': ['Verus/Z3; R14 blocks of check_function_call, check_if_else, check_matching_pattern: what the enclosing functions do around the '
                'blocks (which arm is taken, the early return after the arity error) is not under contract; type_check_expression, check_block, '
                'check_if_else (recursive call), check_matching_pattern (recursive call) are opaque and only never retract an error; '
